@@ -40,11 +40,13 @@ def run(ctx):
         try:
             np.random.seed(1)
             random.seed(1)
+            np.random.normal()       # leave a cached Gaussian deviate in the legacy global stream (part of its state)
             recgen.reset()
             r1 = repro.run_scenario(st, ctx.tmpdir, record=True)
             events = list(recgen.EVENTS)
             np.random.seed(987654)
             random.seed(987654)
+            np.random.normal()
             r2 = repro.run_scenario(st, ctx.tmpdir)
             r3 = repro.run_scenario(st, ctx.tmpdir, pool=mp)
             r4 = repro.run_scenario(st, ctx.tmpdir, api_seed_shift=1)
